@@ -95,6 +95,11 @@ def decodeEv (j : Json) : Except String Ev := do
   | e => throw s!"unknown event {e}"
 
 /-- nesting is bounded by `fuel` (the harness nests at most three deep) -/
+def bound (j : Json) : Bool :=
+  match j.getObjVal? "bound" with
+  | .ok (Json.bool b) => b
+  | _ => false
+
 def decodeMacro (attrs : List Attrs) : Nat → Json → Except String Model.AuthCache.Macro
   | 0, _ => throw "macro nesting too deep"
   | fuel + 1, j => do
@@ -104,8 +109,8 @@ def decodeMacro (attrs : List Attrs) : Nat → Json → Except String Model.Auth
       | some v => do (← v.getArr?).toList.mapM (decodeMacro attrs fuel)
     match ← J.getStr j "op" with
     | "ev" => pure (.ev (← decodeEv (← J.getObj j "ev")))
-    | "tok" => pure (.tok (← J.getHex j "host") (← J.getHex j "tok") 0 0 (← sub "mid1") (← sub "mid2"))
-    | "sar" => pure (.sar (← J.getHex j "host") (← nth attrs (← J.getNat j "attrs") "attrs") 0 (← sub "mid"))
+    | "tok" => pure (.tok (← J.getHex j "host") (← J.getHex j "tok") 0 0 (bound j) (← sub "mid0") (← sub "mid1") (← sub "mid2"))
+    | "sar" => pure (.sar (← J.getHex j "host") (← nth attrs (← J.getNat j "attrs") "attrs") 0 (bound j) (← sub "mid0") (← sub "mid"))
     | o => throw s!"unknown op {o}"
 
 def errName : ErrKind → String
@@ -169,9 +174,9 @@ def optHex : Option Str → Json
   | none => Json.null
 
 def encOut : Out → Json
-  | .tok o => J.obj [("kind", "tok"), ("rid", J.nat o.rid), ("inst", optInst o.inst), ("res", encTokRes o.res),
+  | .tok o => J.obj [("kind", "tok"), ("rid", J.nat o.rid), ("inst", optInst o.inst), ("upstream", optInst o.upstream), ("res", encTokRes o.res),
                      ("time", J.nat o.time), ("src", srcName o.src), ("ep", optHex o.ep), ("ready", J.hexList o.ready)]
-  | .sar o => J.obj [("kind", "sar"), ("rid", J.nat o.rid), ("inst", optInst o.inst), ("res", encSarRes o.res),
+  | .sar o => J.obj [("kind", "sar"), ("rid", J.nat o.rid), ("inst", optInst o.inst), ("upstream", optInst o.upstream), ("res", encSarRes o.res),
                      ("time", J.nat o.time), ("src", srcName o.src), ("ep", optHex o.ep), ("ready", J.hexList o.ready)]
 
 def decOwn (j : Json) : Except String (Option Inst) := do
@@ -181,7 +186,8 @@ def decOwn (j : Json) : Except String (Option Inst) := do
 def doRun (a : Json) : Except String Json := do
   let cfgJ ← J.getObj a "cfg"
   let cfg : Cfg := { successTTL := ← J.getNat cfgJ "successTTL", failureTTL := ← J.getNat cfgJ "failureTTL",
-                     allowTTL := ← J.getNat cfgJ "allowTTL", denyTTL := ← J.getNat cfgJ "denyTTL" }
+                     allowTTL := ← J.getNat cfgJ "allowTTL", denyTTL := ← J.getNat cfgJ "denyTTL",
+                     bindTok := KG.Gen.C12.bindsTokenToUpstream, bindSar := KG.Gen.C12.bindsSarToUpstream }
   let attrs ← (← J.getArr a "attrs").toList.mapM decodeAttrs
   let tokRules ← (← J.getArr a "tokOracle").toList.mapM fun r => do
     pure (⟨← J.getNat r "inst", ← J.getHex r "tok", ← J.getNat r "from", ← decodeTokAns (← J.getObj r "ans")⟩ : TokRule)
@@ -220,6 +226,7 @@ def doRun (a : Json) : Except String Json := do
     ("sarKeys", Json.arr (r.s.sarMap.map fun kv => Json.arr #[J.hex kv.1.host, J.nat kv.1.inst]).toArray),
     ("stopped", Json.arr (r.s.stopped.map J.nat).toArray),
     ("pending", J.nat (r.s.tokPend.length + r.s.sarPend.length)),
+    ("bindTok", J.bool cfg.bindTok), ("bindSar", J.bool cfg.bindSar),
     ("implJudge", Json.arr (implJudge.map J.bool).toArray)]
 
 /-- `C12.host {hp}`: `Hostname` of a request whose `Host` header is `hp` -/
